@@ -187,6 +187,7 @@ structure Drv where
   px : Option (St PSt) := none
   rcd : RecSt := { last := 0 }
   now : Nat := 0
+  fv : Factory := { pw := false }
 
 /-- tabulate an image (driver-side optimisation: same pixels inside the bounds, constant-time lookups) -/
 def freezeImg (i : Img) : Img :=
@@ -524,6 +525,27 @@ def handleSt (d : Drv) (line : String) : Drv × String :=
     | some t => ({ d with now := t }, "ok")
     | none => (d, "bad-op")
   | ["px-recv", h] => doPxRecv d h
+  | ["fv-new", pw] =>
+    match parseBool? pw with
+    | some pw => ({ d with fv := { pw := pw } }, "ok")
+    | none => (d, "bad-op")
+  | ["fv-connect", c, t] =>
+    match c.toNat?, t.toNat? with
+    | some c, some t =>
+      let f := fstep d.fv (.connect c t)
+      ({ d with fv := f }, match f.files.getLast? with | some fl => s!"ok {fl.sec} {fl.suffix}" | none => "ok")
+    | _, _ => (d, "bad-op")
+  | ["fv-recv", c, t, h] =>
+    match c.toNat?, t.toNat?, bytesOfHex h with
+    | some c, some t, some b => ({ d with fv := fstep d.fv (.recv c t b) }, "ok")
+    | _, _, _ => (d, "bad-op")
+  | ["fv-lose", c] =>
+    match c.toNat? with
+    | some c => ({ d with fv := fstep d.fv (.lose c) }, "ok")
+    | none => (d, "bad-op")
+  | ["fv-files"] =>
+    (d, "ok " ++ (if d.fv.files.isEmpty then "-" else " ".intercalate (d.fv.files.map fun fl =>
+      s!"{fl.sec}.{fl.suffix}.{if fl.closed then 1 else 0}:{hexOfStr (String.ofList fl.text)}")))
   | ["shlex", h] => (d, doShlex h)
   | ["quote", h] => (d, doQuote h)
   | "rfb-recv" :: args => doRfbRecv d args
